@@ -20,6 +20,8 @@ def plan(ctx):
         obs.append(Obligation(f"arithmetic.exact.{op}", "xh", "c08", "arithmetic_exact", param={"op": op}, timeout=T * 2,
                               bounds="18 x 18 literal pairs (incl. 29-digit, 2**53+1, 1e-30, exact half-even ties), optional unary minus: finite domain, indices symbolic",
                               desc=f"real eval of 'a {op} b' vs exact rational arithmetic rounded half-even to 28 digits"))
+    obs.append(Obligation("after_failure", "xh", "c08", "after_failure", timeout=T * 2, bounds="10 failing numeric calls, once or twice (finite domain)",
+                          desc="a failing numeric call leaves the decimal context and later arithmetic untouched"))
     for o1 in ('+', '-', '*', '/'):
         for o2 in ('+', '-', '*', '/'):
             obs.append(Obligation(f"arithmetic.chain.{o1}{o2}", "xh", "c08", "arithmetic_chain", param={"o1": o1, "o2": o2}, timeout=T * 2,
